@@ -33,7 +33,7 @@ PROPS = {
         rule="cases = op sequences on a fresh ring buffer: exhaustive over a 14-17 op alphabet to depth 4 (quick) / 5 (thorough) for capacities 0..4, rotated/pre-filled starts x depth 3, random sequences (5..120 ops) for capacities up to 200 with ReadN/Skip arguments up to 300; non-trivial = the read or write index wrapped, or a ReadN/Skip spanned the wrap point; distinct = by hash of (capacity, op list)",
         assumptions=["elements are ints; Go's zero value is 0", "At's panic message is not compared"],
         trusted=["modelled, not verified: Go slice bounds checks, copy(), SliceFill's doubling copy for >= 50 elements (exercised by capacities 49..200)"],
-        explanation="C14.step_refines/refines_queue/consumed_slots_zero proved for every capacity and op list; correspondence ties Ring.RB to container/ringbuffer.go incl. backing array",
+        explanation="C14.step_refines/refines_queue/consumed_slots_zero/bounded/never_diverges proved for every capacity and op list; correspondence ties Ring.RB to container/ringbuffer.go incl. backing array",
     ),
     "C18": dict(
         lean=["GolibsVerif.Props.C18"],
